@@ -5,25 +5,25 @@ ASSUMPTIONS = [
     'size traits {kDefaultCapacity 2, kMaxVectorSize 32} via specialisation of DefaultConcurrentVectorSizeTraits (first bucket 1 element unless '
     'a larger one is reserved; 6-entry buffer table); claimed indices stay below 16 * first-bucket-length so that the look-ahead bucket is in the table',
     'ownership kernel: a bucket that is not owned by the grower under test is, symbolically, either still null or already stored by its owner',
+    'CBMC standard pointer/bounds instrumentation is switched off for these instances (cost); the harness checks that every assigned bucket lies inside the table',
 ]
 OUTSIDE = ('instruction-level interleaving of two growers inside the allocation step and the visibility of the buffer pointers under the C++ memory '
            'model (left to the concurrent engine, see NOTES.md); more than two growers; index ranges beyond 16 first-bucket lengths; first buckets other than 1, 2, 4')
 STRAT = {0: 'kFullBufferAhead', 1: 'kHalfBufferAhead', 2: 'kAsNeeded'}
+CHECKS = ['--no-standard-checks', '--div-by-zero-check']
 INSTANCES = []
 for s in (0, 1, 2):
     for f in (1, 2, 4):
-        tiers = ['quick', 'thorough'] if f in (1, 4) else ['thorough']
-        INSTANCES.append({'name': 'own_worst_s%d_f%d' % (s, f), 'src': 'ownership.cpp', 'engine': 'cbmc',
-                          'defs': {'VF_STRATEGY': s, 'VF_F': f, 'VF_MODE': 0}, 'unwind': 8, 'spin_loops': True, 'timeout': 600, 'tiers': tiers,
+        tiers = ['quick', 'thorough'] if f == 1 else ['thorough']
+        INSTANCES.append({'name': 'own_worst_s%d_f%d' % (s, f), 'src': 'ownership.cpp', 'engine': 'cbmc', 'checks': CHECKS,
+                          'defs': {'VF_STRATEGY': s, 'VF_F': f, 'VF_MODE': 0}, 'unwind': 8, 'spin_loops': True, 'timeout': 900, 'tiers': tiers,
                           'bounds': '%s, first bucket %d; one grower, range [a, a+len) anywhere below index %d, both allocation paths (single index / range); '
                                     'every bucket >= 2 initially null or foreign (symbolic); checks placed before the final wait loop' % (STRAT[s], f, 16 * f)})
-        INSTANCES.append({'name': 'own_seq_s%d_f%d' % (s, f), 'src': 'ownership.cpp', 'engine': 'cbmc',
-                          'defs': {'VF_STRATEGY': s, 'VF_F': f, 'VF_MODE': 1}, 'unwind': 8, 'timeout': 600, 'tiers': tiers,
+        INSTANCES.append({'name': 'own_seq_s%d_f%d' % (s, f), 'src': 'ownership.cpp', 'engine': 'cbmc', 'checks': CHECKS,
+                          'defs': {'VF_STRATEGY': s, 'VF_F': f, 'VF_MODE': 1}, 'unwind': 8, 'timeout': 1500, 'tiers': ['thorough'],
                           'bounds': '%s, first bucket %d; two growers with symbolic ranges [a,b) <= [c,d) below index %d, run in index order, gap owned by a finished third party; '
                                     'wait loops must not spin (unwinding assertions on)' % (STRAT[s], f, 16 * f)})
 for s in (0, 1, 2):
-    INSTANCES.append({'name': 'tasks_s%d' % s, 'src': 'tasks.cpp', 'engine': 'cbmc',
-                      'defs': {'VF_STRATEGY': s, 'VF_CALLS': 2, 'VF_MAXN': 6}, 'unwind': 8, 'timeout': 900,
-                      'bounds': '%s, compact iterator, first bucket 1; 2 growth calls (5 kinds, symbolic grower, symbolic amounts), total size <= 6; task-granularity (API-call) interleaving only' % STRAT[s],
-                      'thorough': {'defs': {'VF_STRATEGY': s, 'VF_CALLS': 3, 'VF_MAXN': 6}, 'timeout': 1500,
-                                   'bounds': '%s, compact iterator, first bucket 1; 3 growth calls (5 kinds, symbolic grower, symbolic amounts), total size <= 6; task-granularity (API-call) interleaving only' % STRAT[s]}})
+    INSTANCES.append({'name': 'tasks_s%d' % s, 'src': 'tasks.cpp', 'engine': 'cbmc', 'checks': CHECKS, 'tiers': ['thorough'],
+                      'defs': {'VF_STRATEGY': s, 'VF_CALLS': 2, 'VF_MAXN': 4}, 'unwind': 6, 'timeout': 1500,
+                      'bounds': '%s, compact iterator, first bucket 1; 2 growth calls (5 kinds, symbolic grower, symbolic amounts), total size <= 4; task-granularity (API-call) interleaving only' % STRAT[s]})
